@@ -1007,7 +1007,21 @@ const KEY_BYTES: std::ops::RangeFrom<usize> = 64..;
 
 /// The identifier of a record.
 #[derive(Clone, Serialize, Deserialize, PartialEq, Eq, PartialOrd, Ord)]
+#[serde(try_from = "Bytes")]
 pub struct RecordIdentifier(Bytes);
+
+/// Identifiers received from peers are only accepted if they hold a namespace and an author:
+/// the accessors slice the bytes at fixed offsets.
+impl TryFrom<Bytes> for RecordIdentifier {
+    type Error = &'static str;
+
+    fn try_from(bytes: Bytes) -> Result<Self, Self::Error> {
+        if bytes.len() < KEY_BYTES.start {
+            return Err("record identifier is too short");
+        }
+        Ok(Self(bytes))
+    }
+}
 
 impl Default for RecordIdentifier {
     fn default() -> Self {
